@@ -9,7 +9,6 @@ import (
 	"path/filepath"
 	"strings"
 
-	"github.com/JunNishimura/Goit/internal/file"
 	"github.com/spf13/cobra"
 )
 
@@ -18,7 +17,8 @@ var (
 )
 
 func removeFromWorkingTree(path string) error {
-	if _, err := os.Stat(path); !os.IsNotExist(err) {
+	// a tracked path that is a directory on disk now is not the tracked file: leave it alone
+	if f, err := os.Stat(path); err == nil && !f.IsDir() {
 		if err := os.Remove(path); err != nil {
 			return fmt.Errorf("fail to delete %s from the working tree: %w", path, err)
 		}
@@ -54,59 +54,36 @@ var rmCmd = &cobra.Command{
 		}
 
 		// remove file from working tree and index
+		// only tracked paths are touched: a directory argument selects the entries registered beneath it
+		removed := make(map[string]struct{})
 		for _, arg := range args {
-			// if the arg is directory
-			if f, err := os.Stat(arg); !os.IsNotExist(err) && f.IsDir() {
-				// get file paths under directory
-				absPath, err := filepath.Abs(arg)
-				if err != nil {
-					return fmt.Errorf("fail to convert %s to abs path: %w", arg, err)
-				}
-				filePaths, err := file.GetFilePathsUnderDirectory(absPath)
-				if err != nil {
-					return fmt.Errorf("fail to get file paths under directory: %w", err)
-				}
+			cleanedArg := filepath.Clean(arg)
+			cleanedArg = strings.ReplaceAll(cleanedArg, `\`, "/")
 
-				// filePaths are defined as abs paths
-				// so, translate them to rel paths
-				var relPaths []string
-				curPath, err := os.Getwd()
-				if err != nil {
-					return fmt.Errorf("fail to get current directory: %w", err)
-				}
-				for _, filePath := range filePaths {
-					relPath, err := filepath.Rel(curPath, filePath)
-					if err != nil {
-						return fmt.Errorf("fail to get relative path: %w", err)
-					}
-					cleanedRelPath := strings.ReplaceAll(relPath, `\`, "/")
-					relPaths = append(relPaths, cleanedRelPath)
-				}
-
-				// remove
-				for _, relPath := range relPaths {
-					// remove from the working tree
-					if err := removeFromWorkingTree(relPath); err != nil {
-						return err
-					}
-
-					// remove from the index
-					if err := client.Idx.DeleteEntry(client.RootGoitPath, []byte(relPath)); err != nil {
-						return fmt.Errorf("fail to delete '%s' from the index: %w", relPath, err)
-					}
-				}
+			var targetPaths []string
+			if _, _, isRegistered := client.Idx.GetEntry([]byte(cleanedArg)); isRegistered {
+				targetPaths = append(targetPaths, cleanedArg)
 			} else {
-				cleanedArg := filepath.Clean(arg)
-				cleanedArg = strings.ReplaceAll(cleanedArg, `\`, "/")
+				for _, entry := range client.Idx.GetEntriesByDirectory(cleanedArg) {
+					targetPaths = append(targetPaths, string(entry.Path))
+				}
+			}
+
+			for _, targetPath := range targetPaths {
+				// the same path may be named more than once
+				if _, ok := removed[targetPath]; ok {
+					continue
+				}
+				removed[targetPath] = struct{}{}
 
 				// remove from the working tree
-				if err := removeFromWorkingTree(cleanedArg); err != nil {
+				if err := removeFromWorkingTree(targetPath); err != nil {
 					return err
 				}
 
 				// remove from the index
-				if err := client.Idx.DeleteEntry(client.RootGoitPath, []byte(cleanedArg)); err != nil {
-					return fmt.Errorf("fail to delete '%s' from the index: %w", cleanedArg, err)
+				if err := client.Idx.DeleteEntry(client.RootGoitPath, []byte(targetPath)); err != nil {
+					return fmt.Errorf("fail to delete '%s' from the index: %w", targetPath, err)
 				}
 			}
 		}
